@@ -62,6 +62,15 @@ theorem appendName_eq (vstr name : Bytes) (v : Option Bytes) :
 /-- a name that cannot be confused with mark syntax: non-empty, no `,` `=` `"` (every RFC 9110 token is clean) -/
 def Clean (n : Bytes) : Prop := n ≠ [] ∧ ∀ c ∈ n, (c == 44 || c == 61 || c == 34) = false
 
+/-- executable form of `Clean` -/
+def cleanB (n : Bytes) : Bool := !n.isEmpty && n.all fun c => !(c == 44 || c == 61 || c == 34)
+
+theorem clean_of_cleanB {n : Bytes} (h : cleanB n = true) : Clean n := by
+  simp only [cleanB, Bool.and_eq_true, Bool.not_eq_eq_eq_not, Bool.not_true, List.all_eq_true] at h
+  refine ⟨fun hc => by rw [hc] at h; simp at h, fun c hc => ?_⟩
+  have := h.2 c hc
+  simpa using this
+
 def isComma (c : UInt8) : Bool := c == 44
 def isNameEnd (c : UInt8) : Bool := c == 44 || c == 61 || c == 34
 def isQuote (c : UInt8) : Bool := c == 34
@@ -330,5 +339,123 @@ theorem clean_lower {n : Bytes} (h : Clean n) : Clean (lower n) := by
 
 theorem getByName_lower (h : Hdrs) (n : Bytes) : getByName h (lower n) = getByName h n := by
   simp [getByName, valuesOf, lower_idem]
+
+
+/-! ### items are never empty; the members of a Vary field -/
+
+theorem itemsFuel_ne_nil : ∀ (f : Nat) (s : Bytes), ∀ n ∈ itemsFuel f s, n ≠ [] := by
+  intro f
+  induction f with
+  | zero => intro s n hn; simp [itemsFuel] at hn
+  | succ f ih =>
+    intro s n hn
+    simp only [itemsFuel] at hn
+    split at hn
+    · cases hn
+    · rename_i hne
+      rcases List.mem_cons.mp hn with hn | hn
+      · rw [hn]; intro hc; rw [hc] at hne; exact hne rfl
+      · exact ih _ n hn
+
+/-- the members `assembleVaryKey` iterates over for the reply's Vary field lines -/
+def varyMembers (varyLines : List Bytes) : List Bytes := items ((joinValues varyLines).getD [])
+
+theorem varyMembers_ne_nil (lines : List Bytes) : ∀ n ∈ varyMembers lines, n ≠ [] :=
+  itemsFuel_ne_nil _ _
+
+theorem makeMark_eq (lines : List Bytes) (h : Hdrs) : makeMark lines h = assembleFrom h (varyMembers lines) [] := rfl
+
+theorem makeMark_star {lines : List Bytes} {h : Hdrs} (hs : star ∈ varyMembers lines) : makeMark lines h = star := by
+  rw [makeMark_eq]; exact assembleFrom_star h _ _ hs
+
+theorem makeMark_nostar {lines : List Bytes} {h : Hdrs} (hs : star ∉ varyMembers lines) :
+    makeMark lines h = markText (pairsOf h (varyMembers lines)) := by
+  rw [makeMark_eq]; exact assembleFrom_nostar_nil h _ hs (varyMembers_ne_nil lines)
+
+theorem pairsOf_eq {h1 h2 : Hdrs} : ∀ (ns1 ns2 : List Bytes), pairsOf h1 ns1 = pairsOf h2 ns2 →
+    ns1.map lower = ns2.map lower ∧ (∀ n ∈ ns1, getByName h1 n = getByName h2 n) ∧
+      (∀ n ∈ ns2, getByName h1 n = getByName h2 n) := by
+  intro ns1
+  induction ns1 with
+  | nil =>
+    intro ns2 h
+    cases ns2 with
+    | nil => simp
+    | cons b ns2 => simp [pairsOf] at h
+  | cons a ns1 ih =>
+    intro ns2 h
+    cases ns2 with
+    | nil => simp [pairsOf] at h
+    | cons b ns2 =>
+      simp only [pairsOf, List.map_cons, List.cons.injEq, Prod.mk.injEq] at h
+      obtain ⟨⟨hn, hv⟩, hrest⟩ := h
+      have := ih ns2 hrest
+      refine ⟨by simp [hn, this.1], ?_, ?_⟩
+      · intro n hm
+        rcases List.mem_cons.mp hm with hm | hm
+        · subst hm
+          rw [← getByName_lower h1 n, ← getByName_lower h2 n, hv, hn]
+        · exact this.2.1 n hm
+      · intro n hm
+        rcases List.mem_cons.mp hm with hm | hm
+        · subst hm
+          rw [← getByName_lower h1 n, ← getByName_lower h2 n, ← hn, hv, hn]
+        · exact this.2.2 n hm
+
+/-! ### closed form of the field-line joiner -/
+
+/-- `a, b, c` -/
+def commaJoin : List Bytes → Bytes
+  | [] => []
+  | v :: vs => v ++ vs.flatMap fun x => [44, 32] ++ x
+
+/-- RFC 9110 5.3 combined field value as `strListAdd` computes it: absent = `none`; empty field lines before the first
+non-empty one contribute nothing -/
+def fieldValue (vs : List Bytes) : Option Bytes :=
+  if vs.isEmpty then none else some (commaJoin (vs.dropWhile (·.isEmpty)))
+
+theorem foldl_strListAdd_ne (vs : List Bytes) : ∀ (a : Bytes), a ≠ [] →
+    vs.foldl strListAdd (some a) = some (a ++ vs.flatMap fun x => [44, 32] ++ x) := by
+  induction vs with
+  | nil => intro a _; simp
+  | cons v vs ih =>
+    intro a ha
+    have hae : a.isEmpty = false := by cases a with | nil => exact absurd rfl ha | cons _ _ => rfl
+    simp only [List.foldl_cons, strListAdd, hae, Bool.false_eq_true, ↓reduceIte]
+    rw [ih _ (by simp [ha])]
+    simp [List.append_assoc]
+
+theorem foldl_strListAdd_empty (vs : List Bytes) :
+    vs.foldl strListAdd (some []) = some (commaJoin (vs.dropWhile (·.isEmpty))) := by
+  induction vs with
+  | nil => simp [commaJoin]
+  | cons v vs ih =>
+    simp only [List.foldl_cons, strListAdd, List.isEmpty_nil, ↓reduceIte]
+    cases hv : v.isEmpty with
+    | true =>
+      have : v = [] := by cases v with | nil => rfl | cons _ _ => cases hv
+      subst this
+      simp only [List.dropWhile_cons, List.isEmpty_nil, ↓reduceIte]
+      exact ih
+    | false =>
+      have hne : v ≠ [] := by intro hc; rw [hc] at hv; cases hv
+      rw [foldl_strListAdd_ne vs v hne]
+      simp [hv, commaJoin]
+
+theorem joinValues_eq_fieldValue (vs : List Bytes) : joinValues vs = fieldValue vs := by
+  cases vs with
+  | nil => rfl
+  | cons v vs =>
+    simp only [joinValues, List.foldl_cons, strListAdd, fieldValue, List.isEmpty_cons, Bool.false_eq_true, ↓reduceIte]
+    cases hv : v.isEmpty with
+    | true =>
+      have : v = [] := by cases v with | nil => rfl | cons _ _ => cases hv
+      subst this
+      rw [foldl_strListAdd_empty]
+      simp
+    | false =>
+      have hne : v ≠ [] := by intro hc; rw [hc] at hv; cases hv
+      rw [foldl_strListAdd_ne vs v hne]
+      simp [hv, commaJoin]
 
 end SquidModel.Cache.Vary
